@@ -564,6 +564,19 @@ rfbNewUDPClient(rfbScreenInfoPtr rfbScreen)
 void
 rfbClientConnectionGone(rfbClientPtr cl)
 {
+    (void)rfbClientTeardown(cl);
+}
+
+/*
+ * The teardown proper. Returns TRUE if rfbShutdownServer() has announced that it joins the
+ * client's thread: it does so while holding a reference on the client, i.e. before the client
+ * is unlinked below, and once unlinked a client cannot be found by it any more - so the answer
+ * read after the unlink is final. A client thread that gets FALSE detaches itself.
+ */
+rfbBool
+rfbClientTeardown(rfbClientPtr cl)
+{
+    rfbBool joinedByShutdown = FALSE;
 #if defined(LIBVNCSERVER_HAVE_LIBZ) && defined(LIBVNCSERVER_HAVE_LIBJPEG)
     int i;
 #endif
@@ -596,6 +609,9 @@ rfbClientConnectionGone(rfbClientPtr cl)
     if (cl->next)
         cl->next->prev = cl->prev;
 
+#ifdef LIBVNCSERVER_HAVE_LIBPTHREAD
+    joinedByShutdown = cl->clientThreadJoinedByShutdown;
+#endif
     UNLOCK(rfbClientListMutex);
 
     if(cl->sock != RFB_INVALID_SOCKET)
@@ -685,6 +701,7 @@ rfbClientConnectionGone(rfbClientPtr cl)
     rfbResetStats(cl);
 
     free(cl);
+    return joinedByShutdown;
 }
 
 
